@@ -92,6 +92,30 @@ def _small(fr_v, fr_e2):
     return (abs(fr_v.numerator) <= 12 and fr_v.denominator <= 2 and 0 <= fr_e2.numerator <= 64 and fr_e2.denominator <= 4)
 
 
+LAYOUTS = ('F', 'T', 'strided', 'ro')
+
+
+def _lay(arr, layout):
+    """The same numbers stored differently: Fortran order, a transposed view, every other element of a larger buffer,
+    or a read-only array."""
+    arr = np.asarray(arr)
+    if arr.ndim == 0 or layout in (None, 'C'):
+        return arr
+    if layout == 'F':
+        return np.asfortranarray(arr)
+    if layout == 'T':
+        return np.ascontiguousarray(arr.T).T
+    if layout == 'strided':
+        big = np.zeros(arr.shape[:-1] + (2 * arr.shape[-1],), dtype=arr.dtype)
+        big[..., ::2] = arr
+        return big[..., ::2]
+    if layout == 'ro':
+        arr = arr.copy()
+        arr.flags.writeable = False
+        return arr
+    return arr
+
+
 def arith_observe(case):
     """One arithmetic operation on real datasets.  case: op, rk, shape, kind, dtype, cells = list of
     dict(lv, le, rv, re) with rationals [num, den] (le, re: errors, not squared).  Returns (obs, problem)."""
@@ -107,7 +131,8 @@ def arith_observe(case):
             v = v.astype(np.int64)
         if scalar_ds:
             return Dataset(v.reshape(())[()], np.float64(e.reshape(())[()]), name=name, what='w' + name)
-        return Dataset(v.reshape(shape), e.reshape(shape), bins=bins, name=name, what='w' + name)
+        return Dataset(_lay(v.reshape(shape), case.get('layout')), _lay(e.reshape(shape), case.get('layout')), bins=bins,
+                       name=name, what='w' + name)
     try:
         left = mkds('lv', 'le', 'left', _bins_for(shape, case.get('bins', 'none')))
         if case['rk'] == 'ds':
@@ -116,6 +141,7 @@ def arith_observe(case):
             right = fl('rv').reshape(shape)
             if all(c['rv'][1] == 1 for c in cells) and case.get('dtype') == 'int':
                 right = right.astype(np.int64)
+            right = _lay(right, case.get('layout'))
         else:
             n, d = cells[0]['rv']
             right = int(n) if d == 1 and case.get('dtype') == 'int' else n / d
@@ -484,6 +510,8 @@ def _arith_cases_of_state(st, rng):
     for c in out:
         c['bins'] = rng.choice(['edges', 'centres', 'none'])
         c['rbins'] = rng.random() < 0.6
+    if n > 1:
+        out.append(dict(out[rng.randrange(len(out))], layout=rng.choice(LAYOUTS)))
     return out
 
 
@@ -516,7 +544,8 @@ def _random_arith_case(rng):
             fr = Fraction(*c[key])
             c[key] = [fr.numerator, fr.denominator]
     return dict(kind='arith', op=op, rk=rk, shape=shape, scalar_ds=(not shape and rng.random() < 0.5), cells=cells,
-                dtype=rng.choice(['int', 'float']), bins=rng.choice(['edges', 'centres', 'none']), rbins=rng.random() < 0.6)
+                dtype=rng.choice(['int', 'float']), bins=rng.choice(['edges', 'centres', 'none']), rbins=rng.random() < 0.6,
+                layout=rng.choice((None, None) + LAYOUTS))
 
 
 _HIST_RE = re.compile(r'/\\ hist = (.*?)\n/\\ ', re.S)
